@@ -7,7 +7,7 @@
 #define NNODES 10
 #include "node_model.h"
 extern struct verif_ti g__ZTIi;
-static struct verif_ti ti_other = {0, "*other"};
+static struct verif_ti ti_other = {0, "*other"}, ti_double = {0, "*d"};
 static struct bv_data cdata[2]; static int32_t cval[2]; static int c_is_int[2];
 struct cnode { struct node n; struct BV value; };
 static struct cnode cn[2];          /* the two Constant nodes (begin, end) */
@@ -41,7 +41,7 @@ static int text_eq(struct node* a, struct node* b) { return a->text.n == b->text
 void OPTIMIZE(char* sret, char* self, char* node_uptr);
 int main(void) {
   for (int i = 0; i < NNODES; i++) { struct node* n = N(i); int k = nondet_i32(); __CPROVER_assume(k >= 0 && k < AST_Compiled); n->identifier = k; n->vptr = (char*)node_vtable; sym_text(n); n->children.b = n->children.e = n->children.c = 0; }
-  for (int j = 0; j < 2; j++) { c_is_int[j] = nondet_u8() & 1; cval[j] = nondet_i32(); D_BARE_TI(&cdata[j]) = c_is_int[j] ? (char*)&g__ZTIi : (char*)&ti_other; D_TI(&cdata[j]) = D_BARE_TI(&cdata[j]); D_CPTR(&cdata[j]) = &cval[j]; D_PTR(&cdata[j]) = 0; cn[j].value.p = (char*)&cdata[j]; cn[j].value.pn = 0; }
+  for (int j = 0; j < 2; j++) { unsigned ck = nondet_u8() % 3; c_is_int[j] = ck == 0; cval[j] = nondet_i32(); D_BARE_TI(&cdata[j]) = ck == 0 ? (char*)&g__ZTIi : ck == 1 ? (char*)&ti_double : (char*)&ti_other; D_TI(&cdata[j]) = D_BARE_TI(&cdata[j]); D_FLAGS(&cdata[j]) = ck < 2 ? TIF_arithmetic : 0;   /* int / another arithmetic type / not a number */ D_CPTR(&cdata[j]) = &cval[j]; D_PTR(&cdata[j]) = 0; cn[j].value.p = (char*)&cdata[j]; cn[j].value.pn = 0; }
   /* for(0) -> [1 eq, 2 binary, 3 prefix, 4 body] (parser invariant: a For node has exactly these four children; empty parts are Noop nodes) */
   set_kids(0, 4, 1);
   set_kids(1, NEQ, 5);          /* eq -> [5 id, 6 constant] (NEQ of them) */
